@@ -479,10 +479,10 @@ def gen(tier, rng):
             subs = SUBS if MENU[8] in ls else [None]
             for sub in subs:
                 files = [[TOP, doc(ls)]] + ([['b.aux', sub]] if sub is not None else [])
-                for mode in (0, 1, 2):
+                for mode in ((0, 1, 2) if n <= 4 else (0,)):
                     yield ('exhaustive', 1, [mode, files])
     # -- exhaustive nesting: a.aux -> b.aux -> c.aux | a.aux | b.aux
-    NT, NB = (3, 2) if quick else (4, 3)
+    NT, NB = (3, 2) if quick else (3, 3)
     for n in range(1, NT + 1):
         for ls in itertools.product(MENU_T, repeat=n):
             if MENU_T[3] not in ls:
@@ -493,13 +493,13 @@ def gen(tier, rng):
                     for mode in (0, 1, 2):
                         yield ('exhaustive_nested', 1, [mode, files])
     # -- structured random, mostly valid
-    for i in range(1500 if quick else 40000):
+    for i in range(1500 if quick else 20000):
         yield ('random', 1, [rng.choice([0, 0, 1, 2]), rand_tree(rng)])
     # -- odd: other line ends, unrelated and half-formed lines, cycles, missing files
-    for i in range(1500 if quick else 40000):
+    for i in range(1500 if quick else 20000):
         yield ('odd', 1, [rng.choice([0, 0, 1, 2]), rand_tree(rng, odd=True)])
     # -- malformed: token-level damage to valid documents
-    for i in range(1500 if quick else 40000):
+    for i in range(1500 if quick else 20000):
         files = rand_tree(rng, odd=rng.random() < 0.3)
         k = rng.randrange(len(files))
         files[k][1] = mutate(rng, files[k][1])
@@ -507,7 +507,7 @@ def gen(tier, rng):
     # -- the regular expression, small scope: heads x every tail over {{ }} a , \n} up to the bound
     heads = ['\\citation', '\\bibdata', '\\bibstyle', '\\@input', '\\input', '\\bibstyl', 'citation', '\\\\citation', ' \\citation',
              '\\Citation', '\\citation{', '\\@input{a}', '\\bibdata{}}', '\\citationbibdata', '\\', '']
-    T = 5 if quick else 7
+    T = 5 if quick else 6
     for h in heads:
         for n in range(0, T + 1):
             for t in itertools.product('{}a,\n', repeat=n):
@@ -516,7 +516,7 @@ def gen(tier, rng):
         ln = rng.choice(OTHER + ODD + MENU)
         yield ('regex_lines', 2, [mutate(rng, ln) if rng.random() < 0.7 else ln])
     # -- line iteration: every content over {a \n \r \f U+2028} up to the bound
-    T = 5 if quick else 7
+    T = 5 if quick else 6
     for n in range(0, T + 1):
         for t in itertools.product('a\n\r\x0c\u2028', repeat=n):
             yield ('lines_sweep', 3, [''.join(t)])
@@ -544,7 +544,7 @@ RULE = ('exhaustive: every a.aux of <= N lines from a 9-line menu (\\citation{a}
         'plus exhaustive small-scope sweeps of command_re (16 heads x all tails over {{ }} a , \\n}), of the line iteration (all contents over {a \\n \\r \\f U+2028}), '
         'of handler call sequences, and Engine.make_bibliography. distinct = distinct (function, argument); non-trivial = a citation was read or an error was reported/raised.')
 EXHAUSTIVE = {'quick': 'all a.aux of <= 4 lines over a 9-line menu x 3 b.aux x 3 modes; all nestings a(<=3 of 5) -> b(<=2 of 6) -> c; command_re tails <= 5; file contents <= 5; handler sequences <= 4 of 7',
-              'thorough': 'all a.aux of <= 5 lines over a 9-line menu x 3 b.aux x 3 modes; all nestings a(<=4 of 5) -> b(<=3 of 6) -> c; command_re tails <= 7; file contents <= 7; handler sequences <= 5 of 7'}
+              'thorough': 'all a.aux of <= 4 lines over a 9-line menu x 3 b.aux x 3 modes, and of 5 lines in capture mode; all nestings a(<=3 of 5) -> b(<=3 of 6) -> c; command_re tails <= 6; file contents <= 6; handler sequences <= 5 of 7'}
 TRUSTED_BASE = ['modelled (not verified) code: pybtex/auxfile.py (all of it), pybtex/errors.py report_error, the line iteration of io.open in text mode (universal newlines), Engine.make_bibliography lines 45-59',
                 'command_re is a hand-written matcher (Model/Aux.v match_command) with a proved characterisation, compared with the live re object on an exhaustive small-scope sweep',
                 'the file system is a function name -> content; pybtex.io.open_unicode / kpsewhich are exercised through real files in a temporary directory']
